@@ -383,6 +383,9 @@ type Exploration struct {
 	parent map[pstate]pstate
 	// states in which each instruction is reached (state before the instruction)
 	at map[ssa.Instruction][]uint64
+	// atSel[ins][i]: the φ operands selected on the path of at[ins][i]
+	atSel   map[ssa.Instruction][]uint64
+	phiSlot map[*ssa.Phi]int
 	P  *Prog
 }
 
@@ -397,13 +400,14 @@ func explore(P *Prog, fn *ssa.Function, init uint64, evs []Ev, record func(ssa.I
 	if len(evs) > 16 {
 		panic("too many events")
 	}
-	ex := &Exploration{fn: fn, evs: evs, parent: map[pstate]pstate{}, at: map[ssa.Instruction][]uint64{}, P: P}
+	ex := &Exploration{fn: fn, evs: evs, parent: map[pstate]pstate{}, at: map[ssa.Instruction][]uint64{}, atSel: map[ssa.Instruction][]uint64{}, P: P}
 	if len(fn.Blocks) == 0 {
 		return ex
 	}
 	type atKey struct {
 		ins ssa.Instruction
 		st  uint64
+		sel uint64
 	}
 	seenAt := map[atKey]bool{}
 	ex.phis = condPhis(fn)
@@ -411,6 +415,7 @@ func explore(P *Prog, fn *ssa.Function, init uint64, evs []Ev, record func(ssa.I
 	for i, p := range ex.phis {
 		phiSlot[p] = i
 	}
+	ex.phiSlot = phiSlot
 	// resolve a condition through the φ operands selected on this path
 	resolve := func(v ssa.Value, sel uint64) (ssa.Value, bool) {
 		flip := false
@@ -460,10 +465,11 @@ func explore(P *Prog, fn *ssa.Function, init uint64, evs []Ev, record func(ssa.I
 		st := cur.st
 		for _, ins := range b.Instrs {
 			if record(ins) {
-				k := atKey{ins, st}
+				k := atKey{ins, st, cur.phi}
 				if !seenAt[k] {
 					seenAt[k] = true
 					ex.at[ins] = append(ex.at[ins], st)
+					ex.atSel[ins] = append(ex.atSel[ins], cur.phi)
 				}
 			}
 			for i, e := range evs {
@@ -610,6 +616,16 @@ func condPhis(fn *ssa.Function) []*ssa.Phi {
 			add(iff.Cond, 0)
 		}
 	}
+	// a returned boolean φ (return a && b): which operand is returned is decided by the path
+	for _, b := range fn.Blocks {
+		if r, ok := b.Instrs[len(b.Instrs)-1].(*ssa.Return); ok {
+			for _, v := range r.Results {
+				if bt, isB := v.Type().Underlying().(*types.Basic); isB && bt.Info()&types.IsBoolean != 0 {
+					add(v, 0)
+				}
+			}
+		}
+	}
 	// φs compared with nil (err := φ(callErr, nil); if err != nil): the test is
 	// correlated with the test that selected the operand
 	for _, b := range fn.Blocks {
@@ -625,6 +641,30 @@ func condPhis(fn *ssa.Function) []*ssa.Phi {
 		}
 	}
 	return out
+}
+
+// resolveAt: v as the φ operand selected on the path described by sel.
+func (ex *Exploration) resolveAt(v ssa.Value, sel uint64) ssa.Value {
+	for i := 0; i < 8; i++ {
+		phi, ok := v.(*ssa.Phi)
+		if !ok {
+			break
+		}
+		slot, tracked := ex.phiSlot[phi]
+		if !tracked {
+			break
+		}
+		k := int(getSt(sel, slot))
+		if k == 0 || k > len(phi.Edges) {
+			break
+		}
+		nv := phi.Edges[k-1]
+		if q, isPhi := nv.(*ssa.Phi); isPhi && q.Block() == phi.Block() {
+			break
+		}
+		v = nv
+	}
+	return v
 }
 
 // holdsVec decodes which events hold in a product state.
